@@ -115,6 +115,90 @@ theorem C12_reverse_pairs_even (ps : List (Msg × Msg)) :
   rw [if_pos hlen]
   exact C12_reverse_pairs_intact ps
 
+
+/-! ## ZREVRANGEBYSCORE: the reversed range, LIMIT counted from the highest score -/
+
+theorem drop_pairs {α β : Type} (f : α → β × β) (ps : List α) (n : Nat) :
+    (ps.flatMap fun p => [(f p).1, (f p).2]).drop (n * 2) = (ps.drop n).flatMap fun p => [(f p).1, (f p).2] := by
+  induction n generalizing ps with
+  | zero => simp
+  | succ n ih =>
+    cases ps with
+    | nil => simp
+    | cons p ps =>
+      have : (n + 1) * 2 = n * 2 + 2 := by omega
+      simp only [List.flatMap_cons, List.drop_succ_cons, this]
+      simpa using ih ps
+
+theorem take_pairs {α β : Type} (f : α → β × β) (ps : List α) (n : Nat) :
+    (ps.flatMap fun p => [(f p).1, (f p).2]).take (n * 2) = (ps.take n).flatMap fun p => [(f p).1, (f p).2] := by
+  induction n generalizing ps with
+  | zero => simp
+  | succ n ih =>
+    cases ps with
+    | nil => simp
+    | cons p ps =>
+      have : (n + 1) * 2 = n * 2 + 2 := by omega
+      simp only [List.flatMap_cons, List.take_succ_cons, this]
+      simpa using ih ps
+
+/-- LIMIT on a members-only reply selects whole members … -/
+theorem C12_limit_members (ms : List Bytes) (off cnt : Int) :
+    limitEntries 1 off cnt (ms.map newBulk) = (limitSlice ms off cnt).map newBulk := by
+  unfold limitEntries limitSlice
+  split
+  · rfl
+  · split <;> simp [List.map_drop, List.map_take]
+
+/-- … and on a WITHSCORES reply whole member/score pairs -/
+theorem C12_limit_pairs (ps : List (Int × Bytes)) (off cnt : Int) :
+    limitEntries 2 off cnt (ps.flatMap fun p => [newBulk p.2, newBulk (fmtScore p.1)])
+      = (limitSlice ps off cnt).flatMap fun p => [newBulk p.2, newBulk (fmtScore p.1)] := by
+  unfold limitEntries limitSlice
+  split
+  · rfl
+  · have hd := drop_pairs (fun p : Int × Bytes => (newBulk p.2, newBulk (fmtScore p.1))) ps off.toNat
+    split
+    · simpa using hd
+    · have ht := take_pairs (fun p : Int × Bytes => (newBulk p.2, newBulk (fmtScore p.1))) (ps.drop off.toNat) cnt.toNat
+      simp only at hd ht ⊢
+      rw [hd, ht]
+
+/-- **ZREVRANGEBYSCORE**: given the ascending range `sel` from the handler, the reply is the descending range with
+LIMIT offset/count counted from the highest score, members in front of their own scores (`LIMIT 0 1` answered with
+the lowest member before the repair) -/
+theorem C12_zrevrangebyscore_reply (sel : List (Int × Bytes)) (off cnt : Int) (ws : Bool) :
+    reverseReplyL off cnt ws (okRes (zMembers ws sel)) = replyP (zMembers ws (limitSlice sel.reverse off cnt)) := by
+  cases ws with
+  | false =>
+    have h1 : (sel.flatMap fun p => [newBulk p.2]) = (sel.map Prod.snd).map newBulk := by
+      induction sel with
+      | nil => rfl
+      | cons p ps ih => simp [ih]
+    have h2 : ∀ l : List (Int × Bytes), (l.flatMap fun p => [newBulk p.2]) = (l.map Prod.snd).map newBulk := by
+      intro l
+      induction l with
+      | nil => rfl
+      | cons p ps ih => simp [ih]
+    simp only [reverseReplyL, okRes, zMembers, Bool.false_eq_true, if_false]
+    rw [h1, ← List.map_reverse, ← List.map_reverse, C12_limit_members, h2]
+    congr 2
+    unfold limitSlice
+    split
+    · rfl
+    · split <;> simp [List.map_drop, List.map_take]
+  | true =>
+    simp only [reverseReplyL, okRes, zMembers, if_true]
+    have := C12_reverse_pairs_even (sel.map fun p => (newBulk p.2, newBulk (fmtScore p.1)))
+    simp only [List.flatMap_map] at this
+    rw [this, ← List.map_reverse, List.flatMap_map]
+    rw [C12_limit_pairs]
+
+/-- the framework asks the handler for the whole range (no LIMIT) with the bounds swapped into (min, max) -/
+example : ∃ f, execZRangeByScore (fun _ => some 0) true [.bulk (some b!"z"), .bulk (some b!"(3"), .bulk (some b!"1"),
+      .bulk (some b!"LIMIT"), .bulk (some b!"1"), .bulk (some b!"2")]
+    = .call (.zrangebyscore b!"z" 0 0 { minex := false, maxex := true, offset := 0, count := -1 }) f := ⟨_, rfl⟩
+
 /-! ## Counters: non-integers and overflow are rejected, nothing is written -/
 
 theorem C12_incr_ok (k v : Bytes) (n d : Int) (st : Store) (hk : st.get k = some (.str v)) (hv : atoi v = some n)
